@@ -31,3 +31,17 @@ Proof. eexists. vm_compute. repeat split. Qed.
 Print Assumptions C17_lookup_is_latest_covering_registration.
 Print Assumptions C17_nothing_below_zero.
 Print Assumptions C17_nothing_above_fffe.
+
+(* State space: the objects this property's model stands for have exactly the fields the model accounts for (StateSpace.v;
+   gen/StateSpaceGen.v is regenerated from the Go sources on every run). A new field - a cache, a memo, a counter - is state
+   the model does not have, so the theorems above would no longer be about the object. *)
+From Coq Require Import String.
+Require Import StateSpaceGen StateSpace.
+Open Scope string_scope.
+Theorem C17_state_space :
+  fields_of "tokenizers/utilities.CharReferenceMap" = fields ["initialInterval"; "otherIntervals"] /\
+  fields_of "tokenizers/utilities.CharReferenceInterval" = fields ["start"; "end"; "reference"] /\
+  fields_of "tokenizers/generic.GenericWordState" = fields ["mp"] /\
+  fields_of "tokenizers/generic.GenericWhitespaceState" = fields ["mp"].
+Proof. vm_compute. repeat split; reflexivity. Qed.
+Print Assumptions C17_state_space.
